@@ -10,11 +10,14 @@ if REPO not in sys.path:
 
 class RecordingRng:
     """stands in for `gen.rng`: forwards to the real numpy generator and records every draw"""
-    def __init__(self, rng, values):
+    def __init__(self, rng, values, script=None, gap_args=None):
         self.rng, self.values, self.draws = rng, list(values), []
+        self.script, self.gap_args = list(script or []), gap_args    # scripted gap draws (directed cases): replace the value, keep the stream
 
     def normal(self, *a, **kw):
         v = float(self.rng.normal(*a, **kw))
+        if self.script and not kw and tuple(a) == self.gap_args:
+            v = float(self.script.pop(0))
         fr = F(v)
         self.draws.append(f"n{fr.numerator}/{fr.denominator}")
         return v
@@ -72,24 +75,41 @@ def make_params(rng):
             "ticks_per_second": tps}
 
 
-def run_generator(params, nticks, record=True):
+def run_generator(params, nticks, record=True, script=None):
     from eudoxia.workload import WorkloadGenerator
     g = WorkloadGenerator(**params)
-    rec = RecordingRng(g.rng, g.priority_values)
+    rec = RecordingRng(g.rng, g.priority_values, script, (g.waiting_ticks_mean, g.waiting_ticks_stdev))
     if record:
         g.rng = rec
     out = [g.run_one_tick() for _ in range(nticks)]
     return g, rec, out
 
 
-def one_run(ctx, drv, rng, tables):
+def scripted_gaps(ctx, drv, rng, tables):
+    """directed: the gap draws themselves are chosen (the rest of the stream stays numpy's), so that every seed sees non-positive draws after long and
+    after short waits, draws below one tick, exact integers and long gaps; the model replays the same stream"""
+    for _ in range(3):
+        wm = rng.choice([3, 4, 6, 9])
+        params = {"waiting_seconds_mean": float(wm), "num_pipelines": rng.choice([1, 2]), "num_operators": wm + 2, "num_segs": 1, "cpu_io_ratio": 0.5,
+                  "random_seed": rng.randint(0, 10 ** 6), "interactive_prob": 0.3, "query_prob": 0.1, "batch_prob": 0.6, "ticks_per_second": 1}
+        script = []
+        for _ in range(12):
+            script.append(rng.choice([2.3 * wm, -0.4, wm + 0.7, 0.2, 0.0, 1.0, 1.9, -3.0, 1.5 * wm, 0.999, float(wm), -0.0]))
+        script[0], script[1] = 2.3 * wm, rng.choice([-0.4, 0.0, 0.3])     # a non-positive (after int()) draw right after a wait longer than the mean
+        one_run(ctx, drv, rng, tables, params, script)
+        ctx.sit("scripted_gap_runs")
+
+
+def one_run(ctx, drv, rng, tables, params=None, script=None):
     table, qkey, key = tables
-    params = make_params(rng)
+    params = params or make_params(rng)
     wm = int(params["waiting_seconds_mean"] * params["ticks_per_second"])
     nticks = min(max(3 * wm + 5, 30), 4000) if wm < 3000 else wm * 2 + 5
     nticks = min(nticks, 200000)
+    if script:
+        nticks = int(sum(max(x, wm) for x in script)) + 5
     try:
-        g, rec, out = run_generator(params, nticks)
+        g, rec, out = run_generator(params, nticks, script=script)
     except AttributeError as e:
         ctx.unproved.append({"kind": "correspondence", "component": "WorkloadGenerator draws", "detail": str(e), "params": params})
         return
@@ -262,6 +282,7 @@ def run(ctx):
     two_generators(ctx, random.Random(ctx.seed + 17))
     drv = Driver()
     try:
+        scripted_gaps(ctx, drv, random.Random(ctx.seed + 29), tables)
         for _ in range(60 if ctx.quick() else 600):
             one_run(ctx, drv, rng, tables)
     finally:
